@@ -193,7 +193,8 @@ func (manager *localManager) ListAllUsers() (infos []UserInfo, err error) {
 	err = manager.db.View(func(tx *bolt.Tx) error {
 		err = tx.ForEach(func(UID []byte, bucket *bolt.Bucket) error {
 			var uinfo UserInfo
-			uinfo.UID = UID
+			// UID is only valid inside this transaction: keep a copy
+			uinfo.UID = append([]byte(nil), UID...)
 			uinfo.SessionsCap = JustInt32(int32(u32(bucket.Get([]byte("SessionsCap")))))
 			uinfo.UpRate = JustInt64(int64(u64(bucket.Get([]byte("UpRate")))))
 			uinfo.DownRate = JustInt64(int64(u64(bucket.Get([]byte("DownRate")))))
